@@ -360,8 +360,8 @@ def _enum_encoders(rep: Report, jx: Any, et: Any) -> None:
 
 def _str_is_value(ti: Any, jx: Any) -> "tuple[bool, str | None]":
     """the generated class defines __str__ and every path of it returns the member's value (as text); the class is the module the
-    template renders: the layout it inherits (`extends`) with its blocks filled in"""
-    text = _as_python(list(tplq.frags(tplq.flatten_extends(jx, ti))), None)
+    template renders (the index holds a template that extends another one as the inherited layout with its blocks filled in)"""
+    text = _as_python(list(tplq.frags(ti.tree.body)), None)
     try:
         tree = ast.parse(text)
     except SyntaxError:
